@@ -11,6 +11,7 @@ INVARIANT Inv_PartialFaithful
 INVARIANT Inv_PlainOnly
 INVARIANT Inv_DepthExact
 INVARIANT Inv_CacheFresh
+INVARIANT Inv_CacheDiscard
 INVARIANT Inv_Covers
 INVARIANT Inv_SetsFresh
 INVARIANT Inv_FullExact
